@@ -164,9 +164,13 @@ namespace rkcommon {
     template <typename KEY, typename VALUE>
     inline void FlatMap<KEY, VALUE>::erase(const KEY &key)
     {
+      // NOTE: 'key' may refer to a key stored in this map (e.g.
+      //       fm.erase(fm.begin()->first)), and stable_partition moves the items
+      //       while the predicate runs, so compare against a copy
+      const KEY victim(key);
       auto itr = std::stable_partition(
           values.begin(), values.end(), [&](const item_t &i) {
-            return i.first != key;
+            return i.first != victim;
           });
 
       values.resize(std::distance(values.begin(), itr));
